@@ -710,7 +710,7 @@ func c11clients(c *Ctx, fl *featLab) {
 			if err != nil {
 				continue
 			}
-			res := c.TB.Run("ts-client", req, plugin.RunOpt{})
+			res := lab.RunDecoy(c.TB, "ts-client", req, plugin.RunOpt{})
 			if !res.OK() {
 				continue
 			}
